@@ -1,6 +1,6 @@
 # -*- coding: utf-8 -*-
 """C10 Binary pack format -- tables, representability, limits, framing, sizes and bit layout."""
-from ..r_pack import rule_layout, rule_sizes, rule_limits, rule_stereo_codes
+from ..r_pack import rule_layout, rule_sizes, rule_limits, rule_stereo_codes, rule_cis_trans_keys
 from ..r_readers import rule_negative_count_slices
 from .c18 import duplicate_tables, isotope_windows
 
@@ -20,3 +20,4 @@ def run(ck, repo):
     rule_sizes(ck, repo, 'C10.D3-sizes')
     rule_layout(ck, repo, 'C10.D4-layout')
     rule_stereo_codes(ck, repo, 'C10.D4-stereo-codes')
+    rule_cis_trans_keys(ck, repo, 'C10.D4-cis-trans-keys')
